@@ -18,6 +18,7 @@ type envReq struct {
 	buf  []byte
 	key  uint
 	val  []byte
+	bufs net.Buffers // save: flattened at perform time
 	ctx  context.Context
 	// answer
 	n      int
@@ -230,14 +231,32 @@ func (st *simStore) Load(key uint) ([]byte, error) {
 }
 
 func (st *simStore) Save(key uint, value net.Buffers) error {
-	b := flat(value)
-	r := st.gate("save", key, b)
-	if r == nil {
+	if st.w.sch.isRoot() {
+		b := flat(value)
 		st.m[key] = b
 		st.w.logStore("save", key, b, nil)
 		return nil
 	}
+	// the buffers are read when the store gets to perform the operation, not
+	// when it is called: a Persistence may take its time (FileSystem writes
+	// buffer by buffer), and simultaneous calls are permitted
+	r := st.gateSave(key, value)
 	return r.err
+}
+
+func (st *simStore) gateSave(key uint, value net.Buffers) *envReq {
+	s := st.w.sch
+	t := s.cur()
+	if s.passThrough(t) {
+		return &envReq{err: errTeardown}
+	}
+	r := &envReq{op: "save", key: key, bufs: value}
+	t.env = r
+	s.park(t, "store.save", kindEnv)
+	if s.passThrough(t) && !r.done() {
+		return &envReq{err: errTeardown}
+	}
+	return r
 }
 
 func (st *simStore) Delete(key uint) error {
